@@ -21,7 +21,12 @@
 (* A scripted stream produces the values 1, 2, 3, ... (value = position),  *)
 (* so "the batches the server produced, in order" is 1..n.                 *)
 (*                                                                         *)
-(* Served: C21.                                                            *)
+(* Served: C21.  MC.cfg / Gen*.cfg describe the client with the two        *)
+(* proposed fixes (RequireEOS, ExcFirst; proposed_fix_C21.diff); the        *)
+(* *_asis.cfg files describe the code as pinned: MC_asis.cfg is EXPECTED to *)
+(* violate CleanEndIsComplete and TypedErrors (the two findings), and the   *)
+(* behaviours of GenE_asis.cfg replay against the pinned code without a     *)
+(* single difference in any key.                                            *)
 (***************************************************************************)
 EXTENDS Integers, Sequences, FiniteSets, TLC, VerifEmit
 
@@ -163,7 +168,11 @@ PostExit(F) ==
       [] "status" \in F                     -> "http_status"
       [] OTHER                              -> "ok"
 
-\* HttpClient.parseIPCStream
+\* HttpClient.parseIPCStream.  Note the "exception" exit: the function releases whatever it has
+\* parsed and returns only the error, so data batches that precede an EXCEPTION batch in the SAME
+\* response (a producer turn with batch limit > 1 that fails after some batches) never reach the
+\* caller -- the actions below hand over E.data only on the "ok" exit.  The caller gets the typed
+\* error, not a clean end, so DeliveredIsPrefix / CleanEndIsComplete hold.
 ParseExit(R, F, decl) ==
     LET mismatch == decl /\ ("schema_drift" \in F \/ R.esch)
         seenExc  == R.exc /\ "trunc_msg" \notin F      \* the envelope is the last message
@@ -243,8 +252,7 @@ CallUnary(term, decl, F) ==
 (* OpenProducer / OpenExchange: post, parse the output stream, trailing     *)
 (* bytes, exchange-only checks, error header; then the stream object.       *)
 Open(k, s, F) ==
-    /\ Budget /\ k \in Kinds
-    /\ kind = "none" \/ (Mode = "tree" /\ kind = "dead")     \* (walks go on after a failed open)
+    /\ Budget /\ k \in Kinds /\ kind = "none"
     /\ OpenFaults \/ F = {}
     /\ sc' = s
     /\ LET R == InitTurn(s, k) IN
